@@ -52,8 +52,10 @@ def subst(t, table):
     return (k,) + tuple(subst(x, table) for x in t[1:])
 
 
-def build(types, table=()):
-    files = c05.build_batch(types, external=NAMES)
+def build(types, defined=()):
+    """defined: mapped names that the project ALSO defines as serde structs (a project type with a custom wire format, mapped to
+    what it looks like in JSON); all other mapped names are foreign types, as with PathBuf / Uuid in real use"""
+    files = c05.build_batch(types, external=[n for n in NAMES if n not in defined])
     return [(files[0][0], files[0][1] + OTHERS)]
 
 
@@ -62,18 +64,20 @@ def id_tokens(text):
     return {t.v for t in toks if t.k == "id"}
 
 
-def is_probe_decl(chunk):
-    """declarations that belong to the N-sites (F<i>, Cmd<i>Params[Schema], cmd<i>, onE<i>)"""
+def is_probe_decl(chunk, mapped=()):
+    """declarations that belong to the N-sites (F<i>, Cmd<i>Params[Schema], cmd<i>, onE<i>) or declare a mapped name itself"""
     import re
     for tok in chunk[:6]:
         if re.fullmatch(r"(F\d+(Schema)?|Cmd\d+Params(Schema)?|cmd\d+|onE\d+)", tok):
+            return True
+        if tok in mapped or (tok.endswith("Schema") and tok[:-6] in mapped):
             return True
     return False
 
 
 def run_case(a):
-    cli, table, types, mode = a
-    files = build(types)
+    cli, table, types, mode, defined = a
+    files = build(types, defined)
     ga = proj.generate(cli, files, mode=mode, config={"type_mappings": table}, tag="c18a")
     gb = proj.generate(cli, files, mode=mode, tag="c18b")
     try:
@@ -110,7 +114,8 @@ def run_case(a):
         for f, text in oa.texts.items():
             left = id_tokens(text) & forbidden
             if left:
-                viol.append(("C18 mapped-name-still-present file=%s mode=%s" % (f, mode), "%s still mentions %s although mapped by %s" % (f, sorted(left), table), None))
+                viol.append(("C18 mapped-name-still-present file=%s mode=%s%s" % (f, mode, " (name also defined in the project)" if set(defined) & {x[:-6] if x.endswith("Schema") else x for x in left} else ""),
+                             "%s still mentions %s although mapped by %s%s" % (f, sorted(left), table, "; the project defines %s as serde structs" % sorted(defined) if defined else ""), None))
         # (3) everything else identical to the unmapped run
         if gb.run.rc == 0:
             ob = gb.output
@@ -118,8 +123,8 @@ def run_case(a):
                 if f not in oa.texts or f not in ob.texts:
                     viol.append(("C18 file-set-differs file=%s" % f, "%s exists only in the %s run" % (f, "mapped" if f in oa.texts else "unmapped"), None))
                     continue
-                da = [c for c in decl_multiset(common.strip_ts(oa.texts[f])) if not is_probe_decl(c)]
-                db = [c for c in decl_multiset(common.strip_ts(ob.texts[f])) if not is_probe_decl(c)]
+                da = [c for c in decl_multiset(common.strip_ts(oa.texts[f])) if not is_probe_decl(c, table)]
+                db = [c for c in decl_multiset(common.strip_ts(ob.texts[f])) if not is_probe_decl(c, table)]
                 if da != db:
                     only_a = [" ".join(c[:12]) for c in da if c not in db][:2]
                     only_b = [" ".join(c[:12]) for c in db if c not in da][:2]
@@ -188,11 +193,15 @@ def run(tier):
                 seen.add(r)
                 uniq.append(t)
         ets = list(enumerate(uniq))
+        simple = tuple(n for n in table if "<" not in n)
         for mode in ("none", "zod"):
-            jobs.append((cli, table, ets, mode))
+            jobs.append((cli, table, ets, mode, ()))
+            # the same table over a project that itself defines the mapped names (every second table in the quick tier)
+            if simple and (tier == "thorough" or len(jobs) % 4 == 1):
+                jobs.append((cli, table, ets, mode, simple))
     res = common.pmap(run_case, jobs, chunksize=1)
     for (job, r) in zip(jobs, res):
-        _, table, ets, mode = job
+        _, table, ets, mode, defined = job
         if "inconclusive" in r:
             v.inconclusive.append("watchdog")
             continue
@@ -202,14 +211,18 @@ def run(tier):
             v.count("blocked:" + r["blocked"][:60])
             continue
         for (i, t) in ets:
-            v.case((tuple(sorted(table.items())), mode, rg.rust(t)), nontrivial=rg.depth(t) >= 1)
+            v.case((tuple(sorted(table.items())), mode, bool(defined), rg.rust(t)), nontrivial=rg.depth(t) >= 1)
         if len(v.samples) < 6:
             v.samples.append({"mapping": table, "mode": mode, "positions": len(ets), "example": rg.rust(ets[min(5, len(ets) - 1)][1])})
         v.count("mapped_positions_compared", r["n"])
+        if defined:
+            v.count("projects_that_also_define_the_mapped_names")
         v.count("mapped_positions_ok", r["ok"])
         tm = dict(ets)
         for (sig, what, i) in r["viol"]:
-            wit = proj.witness_of(build([(i, tm[i])]) if i is not None else r["files"], mode, config={"type_mappings": table})
+            wit = proj.witness_of(build([(i, tm[i])], defined) if i is not None else r["files"], mode, config={"type_mappings": table})
+            if defined:
+                v.count("violations_in_projects_defining_the_mapped_names")
             v.violation(sig, what, wit)
     v.extra["mapping_tables"] = len(tables)
     rule = ("a case is (mapping table, mode, type expression holding a mapped name at some constructor position), placed at the five sites of one "
